@@ -75,10 +75,11 @@ func buildCmd() (string, error) {
 }
 
 type test struct {
-	path string // relative to testdata
-	mode string
-	opts []string
-	src  []byte
+	path  string // relative to testdata
+	mode  string
+	opts  []string
+	src   []byte
+	extra bool // from harness/corpus/extra (always run, also in the quick tier)
 }
 
 var modeRE = regexp.MustCompile(`^(?://|\{#)\s*([a-z]+)((?:\s+-[A-Za-z]+)*)\s*(?:#\})?\s*$`)
@@ -124,6 +125,18 @@ func loadTests() ([]test, error) {
 		}
 		return nil
 	})
+	// reproducers kept by the verification itself (harness/corpus/extra): `// run` programs compared with gc
+	extra := filepath.Join(verifDir(), "harness", "corpus", "extra")
+	if ents, e := os.ReadDir(extra); e == nil {
+		for _, en := range ents {
+			if strings.HasSuffix(en.Name(), ".go") {
+				src, e := os.ReadFile(filepath.Join(extra, en.Name()))
+				if e == nil {
+					ts = append(ts, test{path: "extra/" + en.Name(), mode: "run", src: src, extra: true})
+				}
+			}
+		}
+	}
 	sort.Slice(ts, func(i, j int) bool { return ts[i].path < ts[j].path })
 	return ts, err
 }
@@ -231,9 +244,15 @@ func init() {
 			panic(err)
 		}
 		m := map[string]golden{}
+		if c.Arg == "extra" {
+			m = loadGolden() // only (re)compute the reproducers of harness/corpus/extra
+		}
 		var mu sync.Mutex
 		var runs []test
 		for _, t := range ts {
+			if c.Arg == "extra" && !t.extra {
+				continue
+			}
 			if t.mode == "run" && filepath.Ext(t.path) == ".go" && !nondeterministic(t.src) {
 				runs = append(runs, t)
 			}
@@ -280,7 +299,7 @@ func init() {
 			var sel []test
 			for _, t := range ts {
 				h := sha256.Sum256([]byte(fmt.Sprintf("%d/%s", c.Seed, t.path)))
-				if h[0]%2 == 0 {
+				if h[0]%2 == 0 || t.extra {
 					sel = append(sel, t)
 				}
 			}
@@ -292,6 +311,9 @@ func init() {
 			t := ts[i]
 			ext := filepath.Ext(t.path)
 			full := filepath.Join(repo(), "test", "compare", "testdata", t.path)
+			if t.extra {
+				full = filepath.Join(verifDir(), "harness", "corpus", t.path)
+			}
 			fail := func(sig string, det map[string]string) {
 				det["file"] = t.path
 				det["mode"] = t.mode
@@ -325,7 +347,12 @@ func init() {
 					r = runCmd(bin, t.src, 60*time.Second, append(args, "run", ".go")...)
 				}
 				if r.Exit != 0 || r.Stdout != g.Stdout || r.Stderr != g.Stderr {
-					fail("corpus-run-differs-from-gc", map[string]string{"scriggo_exit": fmt.Sprint(r.Exit), "scriggo_stdout": clip(r.Stdout), "scriggo_stderr": clip(r.Stderr), "gc_stdout": clip(g.Stdout), "gc_stderr": clip(g.Stderr)})
+					sig := "corpus-run-differs-from-gc"
+					if base := filepath.Base(t.path); t.extra && strings.HasPrefix(base, "known_") {
+						// a recorded deviation from gc: reported under its own signature
+						sig = strings.TrimSuffix(strings.TrimPrefix(base, "known_"), ".go")
+					}
+					fail(sig, map[string]string{"scriggo_exit": fmt.Sprint(r.Exit), "scriggo_stdout": clip(r.Stdout), "scriggo_stderr": clip(r.Stderr), "gc_stdout": clip(g.Stdout), "gc_stderr": clip(g.Stderr)})
 					return
 				}
 				count("nontrivial")
